@@ -242,3 +242,149 @@ Proof.
   - exfalso. vm_compute in Hk. injection Hk as <-. vm_compute in Hcid. discriminate.
   - exfalso. vm_compute in Hk. destruct i; discriminate.
 Qed.
+
+(* ---------- the proxy's relay step (gap round) ----------
+   The theorems above take as premise that the bytes reaching the far end of a carrier are a prefix [firstn k] of what
+   the honest sender put on it. Between the two ends sits the proxy: proxy/lib/snowflake.go copyLoop (two io.Copy
+   goroutines, a once-closed done channel, two deferred Close calls), modelled in Model/CopyLoop.v at the granularity of
+   single Read / Write / Close calls. For ALL read scripts r0 r1 (data chunks of any size, possibly together with EOF or
+   an error), ALL write scripts w0 w1 (short writes, write errors) of the two conns and ALL schedules of the two
+   copiers, copyLoop's own goroutine, the shutdown channel and closes from outside:
+   side 0 = c1 (the client's WebRTC conn), side 1 = c2 (the WebSocket to the server); direction d copies side d -> 1-d. *)
+From Snow Require Import Model.CopyLoop Proofs.CopyLoopProofs.
+Open Scope N_scope.
+
+(* (a) what side 1-d accepted is a prefix of what side d handed out, which is a prefix of side d's script: nothing
+   inserted, nothing reordered, nothing skipped in the middle — in both directions *)
+Theorem C01_relay_prefix : forall (r0 r1 : list cl_ritem) (w0 w1 : list cl_witem) (sched : list cl_step) (d : bool),
+  exists n, s_in (get_side (negb d) (cl_run sched (cl_init r0 w0 r1 w1)))
+            = firstn n (s_out (get_side d (cl_run sched (cl_init r0 w0 r1 w1)))).
+Proof. exact relay_prefix. Qed.
+
+Theorem C01_relay_consumed_prefix : forall (r0 r1 : list cl_ritem) (w0 w1 : list cl_witem) (sched : list cl_step) (s : bool),
+  s_out (get_side s (cl_run sched (cl_init r0 w0 r1 w1)))
+    ++ script_data (s_reads (get_side s (cl_run sched (cl_init r0 w0 r1 w1))))
+  = script_data (if s then r1 else r0).
+Proof. exact consumed_prefix. Qed.
+
+(* a copier parked at a Read (no chunk in hand, no write failed so far) has delivered exactly what it read; parked at a
+   Write it has delivered everything but the chunk it holds *)
+Theorem C01_relay_exact_at_read : forall (r0 r1 : list cl_ritem) (w0 w1 : list cl_witem) (sched : list cl_step) (d : bool),
+  get_dir d (cl_run sched (cl_init r0 w0 r1 w1)) = AtRead ->
+  s_in (get_side (negb d) (cl_run sched (cl_init r0 w0 r1 w1))) = s_out (get_side d (cl_run sched (cl_init r0 w0 r1 w1))).
+Proof. exact relay_exact_at_read. Qed.
+
+Theorem C01_relay_at_write : forall (r0 r1 : list cl_ritem) (w0 w1 : list cl_witem) (sched : list cl_step) (d : bool) c er,
+  get_dir d (cl_run sched (cl_init r0 w0 r1 w1)) = AtWrite c er ->
+  s_in (get_side (negb d) (cl_run sched (cl_init r0 w0 r1 w1))) ++ c = s_out (get_side d (cl_run sched (cl_init r0 w0 r1 w1))).
+Proof. exact relay_at_write. Qed.
+
+(* the form the packet-path theorems consume *)
+Theorem C01_relay_prefix_of : forall (r0 r1 : list cl_ritem) (w0 w1 : list cl_witem) (sched : list cl_step) (d : bool) (str : bytes),
+  is_prefix (script_data (if d then r1 else r0)) str ->
+  exists k, s_in (get_side (negb d) (cl_run sched (cl_init r0 w0 r1 w1))) = firstn k str.
+Proof. exact relay_prefix_of. Qed.
+
+(* (b) copyLoop closes each conn at most once, c1 before c2, both exactly once when it has returned; and it leaves its
+   select only after a copier has finished or the shutdown channel was closed *)
+Theorem C01_relay_closes_at_most_once : forall (r0 r1 : list cl_ritem) (w0 w1 : list cl_witem) (sched : list cl_step) (s : bool),
+  (s_closes (get_side s (cl_run sched (cl_init r0 w0 r1 w1))) <= 1)%nat.
+Proof. exact closes_at_most_once. Qed.
+
+Theorem C01_relay_closes_once_when_returned : forall (r0 r1 : list cl_ritem) (w0 w1 : list cl_witem) (sched : list cl_step),
+  mn (cl_run sched (cl_init r0 w0 r1 w1)) = Returned ->
+  forall s, s_closes (get_side s (cl_run sched (cl_init r0 w0 r1 w1))) = 1%nat.
+Proof. exact closes_once_when_returned. Qed.
+
+Theorem C01_relay_closes_in_order : forall (r0 r1 : list cl_ritem) (w0 w1 : list cl_witem) (sched : list cl_step),
+  (s_closes (side1 (cl_run sched (cl_init r0 w0 r1 w1))) <= s_closes (side0 (cl_run sched (cl_init r0 w0 r1 w1))))%nat.
+Proof. exact closes_in_order. Qed.
+
+Theorem C01_relay_returns_for_a_reason : forall r0 w0 r1 w1 sched,
+  let st := cl_run sched (cl_init r0 w0 r1 w1) in
+  mn st <> Waiting -> (exists d, get_dir d st = Exited) \/ In Shutdown sched.
+Proof. exact leaves_select_for_a_reason. Qed.
+
+(* (c) after the return nothing moves: no byte is accepted by either side, no script advances, no further Close, whatever
+   steps follow (a copier that still held a chunk has dropped it) *)
+Theorem C01_relay_inert_after_return : forall r0 w0 r1 w1 sched more,
+  let st := cl_run sched (cl_init r0 w0 r1 w1) in
+  mn st = Returned -> view (cl_run (sched ++ more) (cl_init r0 w0 r1 w1)) = view st.
+Proof. exact returned_inert. Qed.
+
+Theorem C01_relay_both_copiers_gone_at_return : forall r0 w0 r1 w1 sched,
+  let st := cl_run sched (cl_init r0 w0 r1 w1) in mn st = Returned -> forall d, get_dir d st = Exited.
+Proof. exact returned_both_exited. Qed.
+
+Theorem C01_relay_nothing_late : forall r0 w0 r1 w1 sched, late (cl_run sched (cl_init r0 w0 r1 w1)) = (0%nat, 0%nat).
+Proof. exact late_zero. Qed.
+
+(* the premise of C01_upstream_cut / C01_downstream_cut discharged through the relay *)
+Theorem C01_upstream_via_relay : forall cid ps w r0 w0 r1 w1 sched,
+  length cid = 8%nat -> wire_of ps = Some w ->
+  is_prefix (script_data r0) (carrier_stream cid w) ->
+  let s := s_in (side1 (cl_run sched (cl_init r0 w0 r1 w1))) in
+  exists k' j, pump (S (S (S (length s)))) (fresh s) = (k', firstn j ps) /\
+               k_up k' = firstn j ps /\ (j <> 0%nat -> k_cid k' = cid).
+Proof. exact upstream_via_relay. Qed.
+
+Theorem C01_downstream_via_relay : forall ps w r0 w0 r1 w1 sched sc,
+  wire_of ps = Some w ->
+  is_prefix (script_data r1) w ->
+  let s := s_in (side0 (cl_run sched (cl_init r0 w0 r1 w1))) in
+  exists j e, read_stream s sc = (firstn j ps, e) /\ (e = EOF \/ e = UnexpectedEOF).
+Proof. exact downstream_via_relay. Qed.
+
+(* non-vacuity. One run: side 0 hands out 1 2 3 | 4 5 | 6+EOF, side 1's second Write is short (1 byte): direction 0
+   relays 1 2 3, then 4 of the chunk 4 5, and exits (ErrShortWrite); copyLoop closes c1 then c2 and returns.
+   The prefix is strict (5 was read and lost, 6 never read); direction 1 meanwhile delivered 9 and is woken by the close. *)
+Definition C01_ex_r0 : list cl_ritem := [mk_ritem [1;2;3] CNone; mk_ritem [4;5] CNone; mk_ritem [6] CEof].
+Definition C01_ex_r1 : list cl_ritem := [mk_ritem [9] CNone; mk_ritem [8] CNone].
+Definition C01_ex_w1 : list cl_witem := [w_ok; mk_witem (Some 1%nat) false].
+Definition C01_ex_run (sched : list cl_step) := cl_run sched (cl_init C01_ex_r0 [] C01_ex_r1 C01_ex_w1).
+
+Example C01_relay_example_strict_prefix :
+  let st := C01_ex_run [Rel false; Rel false; Rel true; Rel true; Rel false; Rel true; Rel false; RelMain; RelMain; Rel true; Rel false] in
+  s_in (side1 st) = [1;2;3;4] /\ s_out (side0 st) = [1;2;3;4;5] /\ s_in (side0 st) = [9] /\ s_out (side1 st) = [9;8] /\
+  mn st = Returned /\ s_closes (side0 st) = 1%nat /\ s_closes (side1 st) = 1%nat /\
+  get_dir false st = Exited /\ get_dir true st = Exited /\ ~ In Shutdown [Rel false; RelMain].
+Proof. vm_compute. repeat split. intros [H|[H|[]]]; discriminate. Qed.
+
+(* the hypotheses of the at_read / at_write theorems are met by states that have relayed something *)
+Example C01_relay_example_at_read :
+  let st := C01_ex_run [Rel false; Rel false] in get_dir false st = AtRead /\ s_in (side1 st) = [1;2;3] /\ mn st = Waiting.
+Proof. vm_compute. repeat split. Qed.
+
+Example C01_relay_example_at_write :
+  let st := C01_ex_run [Rel false; Rel false; Rel false; Shutdown] in
+  get_dir false st = AtWrite [4;5] CNone /\ s_in (side1 st) = [1;2;3] /\ mn st = Closing1 /\ In Shutdown [Rel false; Shutdown].
+Proof. vm_compute. repeat split. right. left. reflexivity. Qed.
+
+(* a chunk larger than io.Copy's buffer is relayed in pieces of 32768 bytes *)
+Example C01_relay_example_big_chunk :
+  let st := cl_run [Rel false; Rel false] (cl_init [mk_ritem (gen_bytes (N.to_nat 40000) 7) CNone] [] [] []) in
+  N.of_nat (length (s_in (side1 st))) = 32768 /\ get_dir false st = AtRead /\ N.of_nat (length (s_out (side0 st))) = 32768.
+Proof. vm_compute. repeat split. Qed.
+
+(* via the relay: the client's carrier stream is handed to the relay in two Reads (20 bytes, then the rest with EOF); the
+   relay forwards the first, and is shut down while it holds the second: the server queues exactly the first packet.
+   Downstream the relay forwards 5 of the server's bytes before a write error: the client reads the first packet. *)
+Example C01_via_relay_example :
+  let cid := [1;2;3;4;5;6;7;8] in
+  let ps := [[65;66;67]; [68;69]] in
+  exists w, wire_of ps = Some w /\
+    let up := carrier_stream cid w in
+    let r0 := [mk_ritem (firstn 20 up) CNone; mk_ritem (skipn 20 up) CEof] in
+    let r1 := [mk_ritem (firstn 2 w) CNone; mk_ritem (skipn 2 w) CNone] in
+    let w0 := [w_ok; mk_witem (Some 3%nat) true] in
+    let st := cl_run [Rel false; Rel false; Rel false; Rel true; Rel true; Rel true; Rel true; Shutdown; RelMain; RelMain; Rel false]
+                     (cl_init r0 w0 r1 []) in
+    is_prefix (script_data r0) up /\ is_prefix (script_data r1) w /\ mn st = Returned /\
+    length (s_in (side1 st)) = 20%nat /\
+    snd (pump (S (S (S (length (s_in (side1 st)))))) (fresh (s_in (side1 st)))) = [[65;66;67]] /\
+    length (s_in (side0 st)) = 5%nat /\
+    fst (read_stream (s_in (side0 st)) [(1%nat, false); (0%nat, false)]) = [[65;66;67]].
+Proof.
+  eexists. split; [vm_compute; reflexivity|]. cbv zeta. split; [exists []; vm_compute; reflexivity|].
+  split; [exists []; vm_compute; reflexivity|]. vm_compute. repeat split.
+Qed.
